@@ -17,6 +17,18 @@ scratch worktree (`tools/seed_eval.py`), ran the quick tier of the relevant chec
 change under `seeded/<id>/` (`patch.diff`, the demonstration, `meta.json`).  "Strengthened" says what the machinery lacked
 when a change was first missed or only reported without a failing input.
 
+Third session, waves 8 and 9 (one agent per property and wave, two changes each; the prompt of wave 9 listed every earlier change of the property
+as "do not repeat").  Wave 8: 38 changes kept (2 duplicates of earlier ones dropped); at FIRST evaluation 28 were caught by the property's own check,
+6 only by the checks of other properties (C15_4, C19_5, C13_7, C01_7, C01_8, C07_7) and 4 by no check that was run (C11_5, C10_8, C03_8, C07_8).
+Wave 9 (after the strengthening that wave 8 led to): 34 kept (6 duplicates dropped); 29 caught by the property's own check at first evaluation, 2 only
+by other properties' checks (C09_9; C13_9, which is in C15's domain and stays there) and 3 by none (C02_8, C16_6, C18_10).  Every miss was followed by a new
+generator family or oracle (last column), the change was evaluated again and is caught with a concrete failing input.  What the misses had in common:
+a public entry point or call ORDER the harness never used (options set after `read_header_info`, `set_filter` between rows, `next_frame_info` before `next_frame`,
+accessors instead of stored fields), an input family nobody had thought of (a back-reference before the start of a LATER frame's stream, a source that is not
+ready, chunk bodies cut at every length, more frames than `acTL` declares, bytes after `IEND`) — never a weakness of a theorem: each of these changes alters
+behaviour the model fixes, so the model disagrees as soon as the harness asks the question.  The coverage measurement of section 5 would have pointed at
+three of the seven "missed by all" changes in advance (C11_5, C07_8's `fill_buf` error arm, C16_6's accessors).
+
 | id | breaks | change | needs | caught by (quick tier) | what had to be strengthened |
 |---|---|---|---|---|---|
 %s
